@@ -27,6 +27,7 @@ MODULE_FILES = {
     "moclo/moclo/core/modules.py": "moclo.core.modules",
     "moclo/moclo/core/vectors.py": "moclo.core.vectors",
     "moclo/moclo/core/parts.py": "moclo.core.parts",
+    "moclo/moclo/_impl.py": "moclo._impl",
     "moclo/moclo/registry/base.py": "moclo.registry.base",
     "moclo/moclo/registry/_utils.py": "moclo.registry._utils",
     "moclo-ytk/moclo/kits/ytk.py": "moclo.kits.ytk",
